@@ -29,6 +29,20 @@ def lattice(rng, n, shape, base=(0, 0, 0), key0=0.0):
             "r": [key0 + (i + 1) / 8 for i in range(n)]}
 
 
+def shuffle_all(rng, t, key0=0.0):
+    """the same tree under a numbering in which the root need not be node 0 (what `redirect_tree(…, sort=False)` returns)"""
+    n = t["n"]
+    perm = list(range(n)); rng.shuffle(perm)            # old -> new
+    if n > 1 and perm[0] == 0:
+        j = rng.randrange(1, n); perm[0], perm[j] = perm[j], perm[0]
+    inv = [0] * n
+    for o, w in enumerate(perm):
+        inv[w] = o
+    return {"n": n, "pids": [-1 if t["pids"][inv[w]] == -1 else perm[t["pids"][inv[w]]] for w in range(n)],
+            "types": [t["types"][inv[w]] for w in range(n)], "xyz": [t["xyz"][inv[w]] for w in range(n)],
+            "r": [key0 + (w + 1) / 8 for w in range(n)]}
+
+
 def und_edges(pids):
     return sorted(tuple(sorted((i, p))) for i, p in enumerate(pids) if p >= 0)
 
@@ -51,6 +65,12 @@ class Redirect(Suite):
             for _ in range(2 if not big else 6):
                 t = lattice(rng, n, gen.pick_shape(rng, k)); k += 1
                 out.append({"class": "random", "tree": t, "root": rng.randrange(t["n"]), "sort": rng.random() < 0.5})
+        # trees whose root is not node 0 (the library makes them itself: re-rooting with sort=False), re-rooted again — at node 0 too
+        for n in [2, 3, 4, 6, 9] + ([20, 60] if big else []):
+            for rep in range(3 if not big else 6):
+                t = shuffle_all(rng, lattice(rng, n, gen.pick_shape(rng, k))); k += 1
+                root = 0 if rep == 0 else rng.randrange(t["n"])
+                out.append({"class": "root-elsewhere" + ("/at0" if root == 0 else ""), "tree": t, "root": root, "sort": rng.random() < 0.5})
         return out
 
     def run(self, case):
@@ -84,7 +104,8 @@ class Redirect(Suite):
         new_of = {o: j for j, o in enumerate(old)}
         # attributes: all kept, only the types of old and new root exchanged
         want_type = list(t["types"])
-        want_type[k], want_type[0] = t["types"][0], t["types"][k]
+        r0 = pids.index(-1)
+        want_type[k], want_type[r0] = t["types"][r0], t["types"][k]
         for j, o in enumerate(old):
             if res["xyz"][j] != [float(c) for c in t["xyz"][o]]:
                 out.append(("redirect-attrs", f"position of node {o} changed")); break
@@ -123,13 +144,17 @@ class CatSuite(Suite):
                 for _ in range(1 if not big else 2):
                     t1 = lattice(rng, n1, gen.pick_shape(rng, k)); k += 1
                     t2 = lattice(rng, n2, gen.pick_shape(rng, k), base=(40, 0, 0), key0=64.0); k += 1
+                    if k % 4 == 1 and t2["n"] > 1:
+                        t2 = shuffle_all(rng, t2, key0=64.0)      # second tree with its root somewhere else
                     a, b = rng.randrange(t1["n"]), rng.randrange(t2["n"])
-                    translate = rng.random() < 0.6
-                    if not translate and rng.random() < 0.4:      # coincident junction without translation
+                    if k % 4 == 1 and rng.random() < 0.5:
+                        b = 0                                     # node 0 of such a tree is an ordinary node
+                    translate = [True, False, True, False, False][(k // 2) % 5]
+                    if not translate and (k // 2) % 5 != 3:       # coincident junction without translation (guaranteed share)
                         d = [t1["xyz"][a][i] - t2["xyz"][b][i] for i in range(3)]
                         t2 = dict(t2); t2["xyz"] = [[p[i] + d[i] for i in range(3)] for p in t2["xyz"]]
                     cls = f"{'translate' if translate else 'fixed'}/{'root2' if t2['pids'][b] == -1 else 'inner2'}"
-                    if not translate and rng.random() < 0.35:
+                    if not translate and (k // 2) % 5 == 3 and rng.random() < 0.6:
                         # far from the origin, junction nodes a hair apart (1/128): close is not coincident
                         off = [float(rng.randint(1200, 2000)), float(rng.randint(1200, 2000)), float(rng.randint(-2000, -1200))]
                         t1 = dict(t1); t1["xyz"] = [[p[i] + off[i] for i in range(3)] for p in t1["xyz"]]
